@@ -18,7 +18,7 @@
    The protocol part of C02 (no deadlock, termination, syncutil.Go / LimitedRegion) is
    Properties/C02_protocol.v. *)
 From Oras Require Import Base.Prelude Generated.GC02 Model.CopySpec Model.CopyTop Model.CopyOpt Model.CopyFault
-  Model.CopyFaultOpt Proofs.CopySpec Proofs.CopyFault Proofs.CopyFnFacts Proofs.CopyFaultOpt Proofs.CopyFaultLive.
+  Model.CopyFaultOpt Proofs.CopySpec Proofs.CopyFault Proofs.CopyFnFacts Proofs.CopyFaultOpt Proofs.CopyFaultLive Proofs.CopyFaultTerm.
 Local Open Scope nat_scope.
 
 (* The tie of the hand-modelled error handling to the source (layer T -> P): the syntactic facts
@@ -159,9 +159,37 @@ Theorem C02_no_stuck_state :
     (ext = true -> forall n, ~ In (c_root c) (succ' g n)) ->
     forall (tr : list fevent) (fs : fstate),
     ext_ok g c ext d0 -> faccepts g c ext d0 tr = Some fs -> returned (fb fs) = None ->
-    exists fe fs', is_fault fe = false /\ fstep g c ext fs fe = Some fs'.
+    exists e fs', is_fault (Ev e) = false /\ fstep g c ext fs (Ev e) = Some fs'.
 Proof. exact fprogress. Qed.
 Print Assumptions C02_no_stuck_state.
+
+(* Fault-free runs end well (the spec-level form of "re-running it without faults completes the graph"):
+   a fault-free accepted trace has a bounded number of operation / callback / return events (potential
+   function: every such event moves one node strictly forward through its phases), and from every state a
+   fault-free accepted trace reaches without having returned, a finite fault-free continuation reaches the
+   SUCCESSFUL return -- which by C02_success_complete means the whole graph of the call's roots is there. *)
+Theorem C02_nofault_run_bounded :
+  forall (g : graph) (c : cfg) (ext : bool) (d0 : list node) (tr : list fevent) (fs : fstate),
+    ext_ok g c ext d0 -> c_mount c = false ->
+    faccepts g c ext d0 tr = Some fs -> existsb is_fault tr = false ->
+    count_ev tr <= 15 * g_n g + 1.
+Proof. exact fnofault_bounded. Qed.
+Print Assumptions C02_nofault_run_bounded.
+
+Theorem C02_nofault_completes :
+  forall (g : graph) (c : cfg) (ext : bool) (d0 : list node) (rank : node -> nat),
+    (forall n x, In x (succ' g n) -> rank x < rank n) ->
+    1 <= c_K c -> c_root c < g_n g -> (forall x, In x (c_xroots c) -> x < g_n g) ->
+    (forall n x, n < g_n g -> In x (succ' g n) -> x < g_n g) ->
+    c_mount c = false ->
+    (ext = true -> forall n, ~ In (c_root c) (succ' g n)) ->
+    forall (tr : list fevent) (fs : fstate),
+    ext_ok g c ext d0 -> faccepts g c ext d0 tr = Some fs -> existsb is_fault tr = false ->
+    returned (fb fs) = None ->
+    exists tr2 fs2, existsb is_fault tr2 = false /\
+      faccepts g c ext d0 (tr ++ tr2) = Some fs2 /\ returned (fb fs2) = Some true.
+Proof. exact fnofault_completes. Qed.
+Print Assumptions C02_nofault_completes.
 
 Example C02_example_progress_hypotheses :
   (forall n x, In x (succ' g_sh n) -> x < n) /\ 1 <= c_K c_sh /\ c_root c_sh < g_n g_sh /\
